@@ -446,6 +446,20 @@ func verifLemmaMaxBodyTight(c *channelInstance, m *Message, chunkSize int, chunk
 //@   requires [C13:opening-instance] s.openingInstance != nil
 //@   assigns allbut MessageChunk MessageHeader SequenceHeader Header uacp.Conn uacp.Acknowledge SecureChannel.chunks SecureChannel.c SecureChannel.cfg []*MessageChunk map[uint32][]*MessageChunk
 
+// The handler's own sweep: for any decoded OpenSecureChannelRequest (any protocol version, token, mode,
+// lifetime, nonce of any length) on a server channel whose opening instance exists, no nil dereference,
+// failing assertion, negative allocation or out-of-range index. (What the response send path writes
+// besides the channel and the configuration is an assumed frame, as in @policy.)
+//@ func (*SecureChannel).handleOpenSecureChannelRequest@safe
+//@   props C13
+//@   requires s != nil && s.cfg != nil && uacp.connInv(s.c) && s.kind == server && s.instances != nil
+//@   requires s.openingInstance != nil && s.openingInstance.sc == s && s.openingInstance.sequenceNumber <= 4294966272
+//@   requires typeis(svc, *ua.OpenSecureChannelRequest) && dyn(svc, *ua.OpenSecureChannelRequest) != nil &&
+//@            dyn(svc, *ua.OpenSecureChannelRequest).RequestHeader != nil && dyn(svc, *ua.OpenSecureChannelRequest).RequestHeader.AuthenticationToken != nil
+//@   assigns *
+//@   after "ua.NewExtensionObject(nil)" assigns nothing
+//@   after "s.sendResponseWithContext(ctx,instance,reqID,resp)" assigns allbut SecureChannel Config uacp.Conn uacp.Acknowledge channelInstance.sc ua.OpenSecureChannelRequest ua.RequestHeader
+
 //@ func github.com/gopcua/opcua/ua.Response.Header
 //@   assumed
 //@   params r
